@@ -990,3 +990,9 @@ TABLE["C07"] += [
     B("include-header-may-span-lines", {"V7"}, (IP + "declaration.py", "CharsNotIn('>\\n')(\"header\")", "CharsNotIn('>')(\"header\")")),
     N("include-header-also-excludes-quotes", (IP + "declaration.py", "CharsNotIn('>\\n')(\"header\")", "CharsNotIn('>\"\\n')(\"header\")")),
 ]
+TABLE["C01"] += [
+    B("enum-key-plain-literals", {"G9"},
+      (IP + "tokens.py", 'ENUM = Keyword("enum") + Optional(Keyword("class") ^ Keyword("struct"))', 'ENUM = Keyword("enum") + Optional(Literal("class") ^ Literal("struct"))')),
+    B("const-as-plain-literal", {"G9"},
+      (IP + "tokens.py", "CONST, VIRTUAL, CLASS, STATIC, PAIR, TEMPLATE, TYPEDEF, INCLUDE = map(\n    Keyword,", "CONST, VIRTUAL, CLASS, STATIC, PAIR, TEMPLATE, TYPEDEF, INCLUDE = map(\n    Literal,")),
+]
